@@ -561,7 +561,7 @@ def judge_nontext(spec, rec):
 PARTS = [
     Part('anchors', 'enum', judge_anchor, items=items_anchors, exhaustive=True, shards=2),
     Part('hostile', 'hyp', judge_hostile, strategy=lambda tier: strat_hostile(tier),
-         budget={'quick': 9000, 'thorough': 300000}),
+         budget={'quick': 13000, 'thorough': 300000}),
     Part('families', 'hyp', judge_family, strategy=lambda tier: strat_families(tier),
          budget={'quick': 1200, 'thorough': 20000}),
     Part('nontext', 'hyp', judge_nontext, strategy=lambda tier: strat_nontext(tier),
